@@ -65,6 +65,8 @@ def one_case(ctx, g, rng, length):
     if fr != want_fr:
         problems.append("a block outside any interval reports address/contents/contains_address/contains_offset %r, expected %r" % (fr, want_fr))
 
+    held = []
+
     def observe():
         nonlocal beyond
         if twin is not None and (bytes(twin.contents) != contents or twin.size != n or twin.initialized_size != n):
@@ -78,8 +80,15 @@ def one_case(ctx, g, rng, length):
             problems.append("initialized_size %d but %d bytes stored" % (bi.initialized_size, len(c)))
         if len(c) > bi.size and not beyond:
             problems.append("%d bytes stored in an interval of size %d" % (len(c), bi.size))
+        for v0, snap in held:
+            if bytes(v0) != snap:
+                problems.append("a value returned earlier by block.contents / interval.contents changed afterwards (%r, was %r)" % (bytes(v0), snap))
+                break
         for b in blocks:
-            bc = bytes(b.contents)
+            got = b.contents                      # kept alive: later operations must neither be blocked by it nor change it
+            bc = bytes(got)
+            if len(held) < 40 and not isinstance(got, bytes):
+                held.append((got, bc))
             items.append([11, b.offset, b.size]); impl.append([0, list(bc)])
             if bc != c[b.offset:b.offset + b.size]:
                 problems.append("block contents %r differ from the interval bytes %r" % (bc, c[b.offset:b.offset + b.size]))
@@ -116,23 +125,8 @@ def one_case(ctx, g, rng, length):
             problems.append("after save/load size/contents are %d/%r, were %d/%r" % (bi2.size, bytes(bi2.contents), bi.size, bytes(bi.contents)))
         ctx.count("save_load")
 
-    beyond = False
-    observe()
-    if form == "bytearray-edited":
-        # the caller goes on using its own buffer: the interval must have its own copy
-        before = bytes(bi.contents)
-        buf.extend(b"\xaa\xbb")
-        if n:
-            buf[0] ^= 0xff
-        if bytes(bi.contents) != before:
-            problems.append("editing the caller's bytearray after construction changed the interval's bytes to %r" % bytes(bi.contents))
-        observe()
-    for _ in range(length):
-        if problems:
-            break
-        r = rng.random()
-        old = bytes(bi.contents)
-        cur = len(old)
+    def _one_step(r, old, cur):
+        nonlocal beyond
         if r < 0.4:
             v = rng.choice([0, 1, cur - 1, cur, cur + 1, cur + 5, bi.size, bi.size + 1, max(0, cur - 3), 2, 7])
             v = max(0, v)
@@ -169,6 +163,32 @@ def one_case(ctx, g, rng, length):
             items.append([3, i, b]); impl.append([0])
             ctx.count("op:poke")
         else:
+            return False
+        return True
+
+    beyond = False
+    observe()
+    if form == "bytearray-edited":
+        # the caller goes on using its own buffer: the interval must have its own copy
+        before = bytes(bi.contents)
+        buf.extend(b"\xaa\xbb")
+        if n:
+            buf[0] ^= 0xff
+        if bytes(bi.contents) != before:
+            problems.append("editing the caller's bytearray after construction changed the interval's bytes to %r" % bytes(bi.contents))
+        observe()
+    for _ in range(length):
+        if problems:
+            break
+        r = rng.random()
+        old = bytes(bi.contents)
+        cur = len(old)
+        try:
+            step_ok = _one_step(r, old, cur)
+        except Exception as e:  # noqa: BLE001
+            problems.append("an assignment to size / initialized_size / contents raised %s (%d bytes stored, size %d)" % (exc_name(g, e), cur, bi.size))
+            break
+        if step_ok is False:
             continue
         observe()
         if rng.random() < 0.3:
